@@ -8,36 +8,42 @@ import (
 	"encoding/json"
 	"fmt"
 	"go/ast"
+	"go/build"
 	"go/format"
 	"go/parser"
 	"go/token"
 	"os"
 	"path/filepath"
+	"sort"
 	"strconv"
 	"strings"
 )
 
 type Options struct {
-	RepoDir    string // /repo (the tree whose sources are checked)
-	BuildDir   string // the directory the go.mod replace points to (default: RepoDir); differs when checking a snapshot of the repository
-	VerifDir   string // /verif
-	OutDir     string // scratch directory for rewritten files
-	NoShim     bool   // skip R1 (used for the free-running -race pass)
-	NoMapOrder bool   // skip R2
-	NoNow      bool   // skip R3
-	NoExport   bool   // skip R5
-	Dense      bool   // R4: a scheduling point before every statement of the logging path
+	RepoDir    string            // /repo (the tree whose sources are checked)
+	BuildDir   string            // the directory the go.mod replace points to (default: RepoDir); differs when checking a snapshot of the repository
+	VerifDir   string            // /verif
+	OutDir     string            // scratch directory for rewritten files
+	NoShim     bool              // skip R1 (used for the free-running -race pass)
+	NoMapOrder bool              // skip R2
+	NoNow      bool              // skip R3
+	NoExport   bool              // skip R5
+	Dense      bool              // R4: a scheduling point before every statement of the logging path
 	ExtraFiles map[string]string // additional overlay entries (virtual path -> real file)
 	ExportFile string            // the R5 export file to add (default: VerifDir/_overlay/zz_verif_export.go)
+	DropGen    map[string]bool   // "<generated func>:<variable>" statements to leave out of the generated globals file
 }
 
 type Report struct {
-	Overlay   string
-	Rewritten []string
+	Overlay        string
+	Rewritten      []string
 	R1, R2, R3, R4 int
-	Degraded  []string
-	ExportFile string   // the export file the overlay adds (after the NoShim rewrite, if any)
-	Stubbed    []string // functions of the export file replaced by stubs (see StubExport)
+	Degraded       []string
+	ExportFile     string   // the export file the overlay adds (after the NoShim rewrite, if any)
+	GlobalsFile    string   // the generated snapshot/dump file for the package-level variables
+	Globals        int      // number of package-level variables it covers
+	DroppedGen     []string // statements of the generated file the compiler rejected
+	Stubbed        []string // functions of the export file replaced by stubs (see StubExport)
 }
 
 var mapRangeIdents = map[string]bool{"knownPathMap": true, "codeHostingProvidersMap": true}
@@ -139,6 +145,14 @@ func Generate(o Options) (*Report, error) {
 			rep.ExportFile = exp
 		}
 		replace[filepath.Join(build, "slog", "zz_verif_export.go")] = exp
+		gen := filepath.Join(o.OutDir, "zz_verif_globals.go")
+		vars, err := GenGlobals(slogDir, gen, o.DropGen)
+		if err != nil {
+			return nil, err
+		}
+		rep.GlobalsFile = gen
+		rep.Globals = len(vars)
+		replace[filepath.Join(build, "slog", "zz_verif_globals.go")] = gen
 	}
 	for k, v := range o.ExtraFiles {
 		replace[k] = v
@@ -417,4 +431,145 @@ var importAnchor = map[string]string{
 	"strings": "TrimSpace", "time": "Now", "sync": "NewCond", "verif/shim/vsync": "NoPoolChoice",
 	"github.com/hedzr/is": "DebugMode", "github.com/hedzr/is/term/color": "NoColor",
 	"github.com/hedzr/logg/slog/internal/strings": "DotPrefix", "github.com/hedzr/logg/slog/internal/times": "ParseDuration",
+}
+
+// GlobalVar is one package-level variable of package slog found in the sources.
+type GlobalVar struct {
+	Name, Type, Value string
+	Pool, Levels      bool
+}
+
+// ScanGlobals lists the package-level variables of the (default-build) sources of package slog.
+// Variables of sync / atomic types other than sync.Pool are left out.
+func ScanGlobals(slogDir string) ([]GlobalVar, error) {
+	ents, err := os.ReadDir(slogDir)
+	if err != nil {
+		return nil, err
+	}
+	ctx := build.Default
+	ctx.BuildTags = []string{"verif"}
+	var out []GlobalVar
+	fset := token.NewFileSet()
+	text := func(n ast.Node) string {
+		if n == nil {
+			return ""
+		}
+		var b bytes.Buffer
+		_ = format.Node(&b, fset, n)
+		return b.String()
+	}
+	for _, e := range ents {
+		name := e.Name()
+		if e.IsDir() || !strings.HasSuffix(name, ".go") || strings.HasSuffix(name, "_test.go") {
+			continue
+		}
+		if ok, err := ctx.MatchFile(slogDir, name); err != nil || !ok {
+			continue
+		}
+		f, err := parser.ParseFile(fset, filepath.Join(slogDir, name), nil, 0)
+		if err != nil {
+			return nil, err
+		}
+		for _, d := range f.Decls {
+			gd, ok := d.(*ast.GenDecl)
+			if !ok || gd.Tok != token.VAR {
+				continue
+			}
+			for _, sp := range gd.Specs {
+				vs := sp.(*ast.ValueSpec)
+				for i, id := range vs.Names {
+					if id.Name == "_" || strings.HasPrefix(strings.ToLower(id.Name), "verif") {
+						continue
+					}
+					g := GlobalVar{Name: id.Name, Type: text(vs.Type)}
+					if len(vs.Values) == len(vs.Names) {
+						g.Value = text(vs.Values[i])
+					}
+					tv := g.Type + " " + g.Value
+					g.Pool = g.Type == "sync.Pool" || strings.HasPrefix(g.Value, "sync.Pool{")
+					if !g.Pool && (strings.Contains(tv, "sync.") || strings.Contains(tv, "atomic.")) {
+						continue
+					}
+					g.Levels = strings.Contains(g.Type, "Level") || strings.Contains(firstLineOf(g.Value), "Level")
+					out = append(out, g)
+				}
+			}
+		}
+	}
+	sort.Slice(out, func(i, j int) bool { return out[i].Name < out[j].Name })
+	return out, nil
+}
+
+func firstLineOf(s string) string {
+	if i := strings.IndexByte(s, '\n'); i >= 0 {
+		return s[:i]
+	}
+	return s
+}
+
+// GenGlobals writes the generated file that snapshots / dumps every package-level variable by name
+// (one statement per line, so that a line the compiler rejects can be dropped: see DropLines).
+func GenGlobals(slogDir, dst string, drop map[string]bool) ([]GlobalVar, error) {
+	vars, err := ScanGlobals(slogDir)
+	if err != nil {
+		return nil, err
+	}
+	var sb strings.Builder
+	sb.WriteString("//go:build verif\n\n// Code generated by /verif/instrument from the package-level variables of this tree. DO NOT EDIT.\n\npackage slog\n\nimport \"strings\"\n\n")
+	emit := func(fn, sig string, line func(g GlobalVar) string) {
+		fmt.Fprintf(&sb, "func %s%s {\n", fn, sig)
+		for _, g := range vars {
+			if drop[fn+":"+g.Name] {
+				fmt.Fprintf(&sb, "\tverifMark(%q)\n", "generated:"+fn+":"+g.Name)
+				continue
+			}
+			if l := line(g); l != "" {
+				sb.WriteString("\t" + l + " // " + fn + ":" + g.Name + "\n")
+			}
+		}
+		sb.WriteString("}\n\n")
+	}
+	emit("verifGenSnapshot", "(s *VerifSnap)", func(g GlobalVar) string {
+		if g.Pool {
+			return ""
+		}
+		return fmt.Sprintf("verifSnapVar(s, &%s)", g.Name)
+	})
+	emit("verifGenSnapshotPools", "(s *VerifSnap)", func(g GlobalVar) string {
+		if !g.Pool {
+			return ""
+		}
+		return fmt.Sprintf("verifSnapPoolVar(s, &%s)", g.Name)
+	})
+	emit("verifGenDump", "(sb *strings.Builder)", func(g GlobalVar) string {
+		if g.Pool {
+			return ""
+		}
+		return fmt.Sprintf("verifDumpVar(sb, %q, &%s)", g.Name, g.Name)
+	})
+	emit("verifGenDumpLevels", "(sb *strings.Builder)", func(g GlobalVar) string {
+		if g.Pool || !g.Levels {
+			return ""
+		}
+		return fmt.Sprintf("verifDumpVar(sb, %q, &%s)", g.Name, g.Name)
+	})
+	return vars, os.WriteFile(dst, []byte(sb.String()), 0o644)
+}
+
+// GenLineTags returns, for the given line numbers of a generated file, the "<func>:<var>" tags at their ends.
+func GenLineTags(file string, lines []int) []string {
+	b, err := os.ReadFile(file)
+	if err != nil {
+		return nil
+	}
+	ls := strings.Split(string(b), "\n")
+	var tags []string
+	for _, n := range lines {
+		if n >= 1 && n <= len(ls) {
+			if i := strings.LastIndex(ls[n-1], " // "); i >= 0 {
+				tags = append(tags, strings.TrimSpace(ls[n-1][i+4:]))
+			}
+		}
+	}
+	return tags
 }
